@@ -50,6 +50,7 @@ Proof.
   cbn [fst app] in Elg. subst lg.
   destruct (build fl) as [lv last] eqn:Eb. cbn [fst snd] in *. destruct lv; [|discriminate]. cbn [CstSound6Val.r_lv] in E2.
   exists last. split; [symmetry; exact E2|]. split; [exact A|]. split; [exact B0|].
+  split; [rewrite <- E2; exact H60|]. split; [rewrite <- E2; exact H38|].
   exists fl. split; [exact Eb|]. split; [exact Hok|]. split; [exact Hbal|]. split; [rewrite <- Efl; exact E2|].
   intros es Hes. rewrite <- E2 in Hes. fold en in Hes. rewrite Es in Hes. injection Hes as <-.
   pose proof (rel_content_loop text pst (list token) (pev text) ev_log (fun q l => l = fst q)) as HR.
